@@ -697,3 +697,196 @@ Proof.
       - eapply step_app; eauto. lia. }
     destruct PR1 as (T1 & PR1). rewrite apply_log_app. eapply IH; eauto.
 Qed.
+
+(** ---- the invariant holds for a well-formed image as HTPstart loads it *)
+Definition byte_ok (b : Z) : Prop := 0 <= b < 256.
+
+Lemma be_bound l : Forall byte_ok l -> 0 <= be l < 256 ^ Z.of_nat (length l).
+Proof.
+  induction l as [|x l IH] using rev_ind; intros F.
+  - unfold be; simpl. lia.
+  - apply Forall_app in F. destruct F as [Fl Fx]. inversion Fx as [|? ? Hx _]; subst. specialize (IH Fl).
+    rewrite be_app, app_length. simpl length. rewrite Nat2Z.inj_add. simpl Z.of_nat.
+    rewrite Z.pow_add_r by lia. unfold byte_ok in Hx. change (256 ^ 1) with 256. nia.
+Qed.
+
+Lemma Forall_firstn_ {A} (P : A -> Prop) n l : Forall P l -> Forall P (firstn n l).
+Proof. revert l; induction n; intros l F; simpl; [constructor|]. destruct l; [constructor|]. inversion F; subst. constructor; auto. Qed.
+
+Lemma Forall_skipn_ {A} (P : A -> Prop) n l : Forall P l -> Forall P (skipn n l).
+Proof. revert l; induction n; intros l F; simpl; auto. destruct l; [constructor|]. inversion F; subst. auto. Qed.
+
+Lemma be_bound_le l k : Forall byte_ok l -> (length l <= k)%nat -> 0 <= be l < 256 ^ Z.of_nat k.
+Proof.
+  intros F L. pose proof (be_bound l F) as B. split; [lia|].
+  apply Z.lt_le_trans with (256 ^ Z.of_nat (length l)); [lia|]. apply Z.pow_le_mono_r; lia.
+Qed.
+
+Lemma s32_range z : 0 <= z < 4294967296 -> -2147483648 <= s32 z < 2147483648.
+Proof. intros. unfold s32. destruct (Z.ltb_spec z 2147483648); lia. Qed.
+
+Lemma s16_range z : 0 <= z < 65536 -> s16 z < 32768.
+Proof. intros. unfold s16. destruct (Z.ltb_spec z 32768); lia. Qed.
+
+Lemma parse_dd_in_range b : Forall byte_ok b -> dd_in_range (parse_dd b).
+Proof.
+  intros F. unfold dd_in_range, parse_dd; cbn [d_tag d_ref d_off d_len].
+  assert (B2 : forall l, Forall byte_ok l -> 0 <= be (firstn 2 l) < 65536).
+  { intros l Fl. apply (be_bound_le _ 2); [apply Forall_firstn_; auto|]. rewrite firstn_length. lia. }
+  assert (B4 : forall l, Forall byte_ok l -> 0 <= be (firstn 4 l) < 4294967296).
+  { intros l Fl. apply (be_bound_le _ 4); [apply Forall_firstn_; auto|]. rewrite firstn_length. lia. }
+  split; [apply B2; auto|]. split; [apply B2; apply Forall_skipn_; auto|].
+  split; apply s32_range; apply B4; apply Forall_skipn_; auto.
+Qed.
+
+Lemma parse_dds_in_range n : forall b, Forall byte_ok b -> Forall dd_in_range (parse_dds n b).
+Proof.
+  induction n; intros b F; [constructor|].
+  change (parse_dds (S n) b) with (parse_dd (firstn 12 b) :: parse_dds n (skipn 12 b)). constructor.
+  - apply parse_dd_in_range. apply Forall_firstn_. exact F.
+  - apply IHn. apply Forall_skipn_. exact F.
+Qed.
+
+Lemma length_parse_dds n b : length (parse_dds n b) = n.
+Proof. revert b; induction n; intros; simpl; auto. Qed.
+
+Lemma bytes_ok_Forall img : bytes_ok img = true -> Forall byte_ok img.
+Proof.
+  unfold bytes_ok. intros H. apply Forall_forall. intros x Hx. rewrite forallb_forall in H. specialize (H x Hx).
+  apply andb_prop in H. destruct H as [A B]. apply Z.leb_le in A. apply Z.ltb_lt in B. unfold byte_ok. lia.
+Qed.
+
+Lemma read_bytes_ok img off n x : Forall byte_ok img -> read_bytes img off n = Some x -> Forall byte_ok x.
+Proof.
+  intros F R. apply read_bytes_some in R. destruct R as (_ & _ & _ & -> & _).
+  apply Forall_firstn_. apply Forall_skipn_. exact F.
+Qed.
+
+Lemma read_block_in_range img off b : Forall byte_ok img -> read_block img off = Some b -> blk_in_range b.
+Proof.
+  intros F R. destruct (read_block_inv _ _ _ R) as (h & bs & Rh & Hn & Hp & Hx & Ho & Rb & Hd).
+  pose proof (read_bytes_ok _ _ _ _ F Rh) as Fh. pose proof (read_bytes_ok _ _ _ _ F Rb) as Fb.
+  apply read_bytes_some in Rh. destruct Rh as (O1 & _ & _ & _ & Lh).
+  unfold blk_in_range. split; [|split; [|split; [|split]]].
+  - split; [exact Hp|]. rewrite Hn. apply s16_range. apply (be_bound_le _ 2); [apply Forall_firstn_; auto|].
+    rewrite firstn_length. lia.
+  - rewrite Hx. apply s32_range. apply (be_bound_le _ 4); [apply Forall_skipn_; auto|].
+    rewrite skipn_length. unfold zlen, hdr_sz, NDDS_SZ, OFFSET_SZ in Lh. lia.
+  - rewrite Hd. apply parse_dds_in_range. exact Fb.
+  - rewrite Hd. unfold zlen. rewrite length_parse_dds. lia.
+  - lia.
+Qed.
+
+(** structure of a parsed chain *)
+Lemma parse_chain_struct fuel : forall img off bl,
+  parse_chain fuel img off = Some bl ->
+  Forall (agrees img) bl /\ linked bl /\ (exists b r, bl = b :: r /\ b_off b = off) /\
+  Forall (fun b => b_next b <> 0) (removelast bl).
+Proof.
+  induction fuel; intros img off bl; simpl; [discriminate|].
+  destruct (read_block img off) as [b|] eqn:R; [|discriminate].
+  assert (Ho : b_off b = off) by (destruct (read_block_inv _ _ _ R) as (h & bs & _ & _ & _ & _ & Ho & _); exact Ho).
+  assert (Ab : agrees img b) by (unfold agrees; rewrite Ho; exact R).
+  destruct (Z.eqb_spec (b_next b) 0) as [E|E].
+  - intros H; inversion H; subst. split; [constructor; auto|]. split; [simpl; exact E|]. split; [eauto|]. simpl. constructor.
+  - destruct (parse_chain fuel img (b_next b)) as [l|] eqn:P; [|discriminate].
+    intros H; inversion H; subst. destruct (IHfuel _ _ _ P) as (A & L & (b2 & r2 & -> & Ho2) & Z).
+    split; [constructor; auto|]. split; [simpl; repeat split; auto|]. split; [eauto|].
+    change (removelast (b :: b2 :: r2)) with (b :: removelast (b2 :: r2)). constructor; auto.
+Qed.
+
+Lemma list_eqb_eq a : forall b, list_eqb a b = true -> a = b.
+Proof.
+  induction a; destruct b; simpl; intros H; try discriminate; auto.
+  apply andb_prop in H. destruct H as [H1 H2]. apply Z.eqb_eq in H1. f_equal; auto.
+Qed.
+
+Lemma pairwise_disjoint_pdisj l : pairwise_disjoint l = true -> pdisj l.
+Proof.
+  induction l as [|[a1 a2] l IH]; simpl; auto. intros H. apply andb_prop in H. destruct H as [H1 H2]. split; auto.
+  apply Forall_forall. intros q Hq. rewrite forallb_forall in H1. specialize (H1 q Hq).
+  unfold disjointb in H1. apply orb_prop in H1. unfold disj; simpl. destruct H1 as [X|X]; apply Z.leb_le in X; auto.
+Qed.
+
+Lemma fold_max_ge l : forall a x, (x = a \/ In x l) -> x <= fold_left Z.max l a.
+Proof.
+  induction l as [|y l IH]; intros a x H; simpl.
+  - destruct H as [->|[]]. lia.
+  - destruct H as [->|[->|H]].
+    + apply Z.le_trans with (Z.max a y); [lia|]. apply IH. left. reflexivity.
+    + apply Z.le_trans with (Z.max a x); [lia|]. apply IH. left. reflexivity.
+    + apply IH. right. exact H.
+Qed.
+
+Definition T_init (bl : list block) : list tri := map (fun b => mktri b b b) bl.
+
+Lemma init_PF img bl :
+  wf_image img = true -> parse_file img = Some bl -> PF img bl img bl (old_end bl) (T_init bl).
+Proof.
+  intros W P. unfold wf_image in W. rewrite P in W.
+  apply andb_prop in W. destruct W as [Wb W]. apply andb_prop in W. destruct W as [Wd We].
+  pose proof (bytes_ok_Forall _ Wb) as Fb.
+  assert (P' := P). unfold parse_file in P'.
+  destruct (read_bytes img 0 MAGICLEN) as [m|] eqn:Rm; [|discriminate].
+  destruct (list_eqb m HDFMAGIC) eqn:Em; [|discriminate]. apply list_eqb_eq in Em. subst m.
+  destruct (parse_chain_struct _ _ _ _ P') as (Ag & Lk & (b0 & r0 & Ebl & Hb0) & Nz).
+  assert (Ed : map t_d (T_init bl) = bl) by (unfold T_init; rewrite map_map; simpl; apply map_id).
+  assert (Emm : map t_m (T_init bl) = bl) by (unfold T_init; rewrite map_map; simpl; apply map_id).
+  assert (Er : map region (T_init bl) = map block_region bl) by (unfold T_init; rewrite map_map; reflexivity).
+  assert (Rg : Forall blk_in_range bl).
+  { apply Forall_forall. intros b Hb. apply (read_block_in_range img (b_off b)); [exact Fb|].
+    rewrite Forall_forall in Ag. apply Ag; auto. }
+  assert (Hok : Forall tri_ok (T_init bl)).
+  { unfold T_init. apply Forall_map. apply Forall_forall. intros b Hb. rewrite Forall_forall in Rg. split; simpl.
+    - unfold compat. split; [reflexivity|]. split; [reflexivity|]. split; [left; reflexivity|].
+      split; [apply Forall2_refl_or|apply Rg; exact Hb].
+    - unfold mixrel. auto. }
+  assert (Hag : Forall (fun t => agrees img (t_x t)) (T_init bl)).
+  { unfold T_init. apply Forall_map. simpl. exact Ag. }
+  pose proof (pairwise_disjoint_pdisj _ Wd) as Pd.
+  apply PF_intro; auto.
+  - constructor; auto.
+    + rewrite Emm. exact Lk.
+    + subst bl. simpl. exact Hb0.
+    + rewrite Er. exact Pd.
+    + apply inv_len_derive; auto. rewrite Er. simpl in Pd. destruct Pd as [_ Pd]. exact Pd.
+  - exists []. rewrite Ed, app_nil_r. reflexivity.
+  - intros d x _ _ _ E. exact E.
+  - rewrite Ed. intros d b Hd Hl Hh Hb. rewrite forallb_forall in We. specialize (We d Hd).
+    rewrite Hl, Hh in We. simpl in We. rewrite forallb_forall in We. specialize (We b Hb).
+    unfold disjointb in We. apply orb_prop in We. destruct We as [X|X]; apply Z.leb_le in X; auto.
+  - unfold Above. rewrite Ed. split; [|split].
+    + apply Forall_forall. intros b Hb. unfold old_end. apply fold_max_ge. right. apply in_or_app. left.
+      apply in_map. exact Hb.
+    + intros d Hd _ _. unfold old_end. apply fold_max_ge. right. apply in_or_app. right.
+      apply (in_map (fun d => d_off d + d_len d)). exact Hd.
+    + apply Z.le_trans with (block_end b0).
+      * rewrite Forall_forall in Rg. destruct (Rg b0 ltac:(subst bl; left; reflexivity)) as ((R1 & _) & _).
+        unfold block_end, start_block_end. lia.
+      * unfold old_end. apply fold_max_ge. right. apply in_or_app. left. apply in_map. subst bl. left. reflexivity.
+  - unfold T_init. apply Forall_map. apply Forall_forall. intros; reflexivity.
+Qed.
+
+(** THE MISSING LEMMA: every append-only session on a well-formed image reaches a flush_state *)
+Lemma run_ops_reaches_flush_state_lemma img bl fr ops fr1 pre :
+  wf_image img = true -> parse_file img = Some bl -> load img true = Some fr -> forallb op_ok ops = true ->
+  run_ops fr ops = (fr1, pre) -> f_end fr1 < 2147483648 ->
+  exists T, flush_state img bl (apply_log img pre) fr1 T.
+Proof.
+  intros W P L Hok R Hb. unfold load in L. rewrite P in L. inversion L; subst fr; clear L.
+  assert (PR : PFr img bl img (mkfrec (map (fun b => mkmb b false) bl) (old_end bl) true false false) (T_init bl)).
+  { split; [|reflexivity]. simpl. rewrite map_map. simpl. rewrite map_id. apply init_PF; auto. }
+  destruct (run_ops_PFr img bl ops _ _ _ PR Hok _ _ R Hb) as (T & [PT _]).
+  exists T. apply PF_flush_state. exact PT.
+Qed.
+
+(** THEOREM 2 at full strength *)
+Lemma prefix_safe_flush_full img bl fr ops fr1 pre k :
+  wf_image img = true -> parse_file img = Some bl -> load img true = Some fr -> forallb op_ok ops = true ->
+  run_ops fr ops = (fr1, pre) -> f_end fr1 < 2147483648 ->
+  preserves img (apply_log img (pre ++ firstn k (snd (sync fr1)))) = true.
+Proof.
+  intros W P L Hok R Hb.
+  destruct (run_ops_reaches_flush_state_lemma _ _ _ _ _ _ W P L Hok R Hb) as (T & S).
+  eapply prefix_safe_flush_lemma; eauto.
+Qed.
